@@ -242,7 +242,9 @@ func checkSite(c pubCase, res *pub.Result, label string) (fails []*harness.Failu
 				if c.Mask&63 != 63 {
 					if full, f := publish(c.Doc, c.Vis, 63, 1, 0); f == nil {
 						if _, exists := full.Files[target]; exists {
-							add(harness.Failf("dangling-link:into-disabled-page-group", "%s: %s links to %q, a page of a group that is switched off (mask %d; files: %v)\n%s", label, n, l, c.Mask, names, c.Doc.Text()))
+							// (attributed by the kind of page that is linked to: which groups link into
+							// which is part of the finding)
+							add(harness.Failf("dangling-link:into-disabled-page-group:"+groupsOf(full.Kinds[target], c.Mask), "%s: %s links to %q, a page of a group that is switched off (mask %d; files: %v)\n%s", label, n, l, c.Mask, names, c.Doc.Text()))
 							continue
 						}
 					}
@@ -277,6 +279,40 @@ func collisionKinds(kinds []string) []string {
 	}
 	sort.Strings(out)
 	return out
+}
+
+// groupsOf names the page groups (the six switches) that the page kinds belong to.
+// When several pages share the name (finding C19-F1) and one of them is a page of the
+// individuals group while that group is off, the link is counted as one into that group.
+func groupsOf(kinds []string, mask int) string {
+	set := map[string]bool{}
+	for _, k := range kinds {
+		switch k {
+		case "IndividualPage", "IndividualListPage":
+			set["individuals"] = true
+		case "PlacePage", "PlaceListPage":
+			set["places"] = true
+		case "FamilyListPage":
+			set["families"] = true
+		case "SurnameListPage":
+			set["surnames"] = true
+		case "SourcePage", "SourceListPage":
+			set["sources"] = true
+		case "StatisticsPage":
+			set["statistics"] = true
+		default:
+			set[k] = true
+		}
+	}
+	if set["individuals"] && mask&1 == 0 {
+		return "individuals"
+	}
+	var out []string
+	for g := range set {
+		out = append(out, g)
+	}
+	sort.Strings(out)
+	return strings.Join(out, "+")
 }
 
 func linkKind(t string) string {
